@@ -13,6 +13,8 @@ import (
 	"crypto/sha256"
 	"encoding/json"
 	"fmt"
+	"io"
+	"math/big"
 	mrand "math/rand"
 	"strings"
 	"sync"
@@ -31,6 +33,42 @@ type KeyEnt struct {
 	Signer ssh.Signer
 	Pub    ssh.PublicKey
 	Blob   []byte
+	// SK: a security-key (FIDO) key pair: an agent client cannot add it (its private half is a handle on a token),
+	// it appears in the underlying agent by other means
+	SK bool
+}
+
+// SKSigner signs like a FIDO token behind ssh-agent does (the sk-* signature formats): the signature covers
+// sha256(application) || flags || counter || sha256(data); flags and counter travel in the signature's tail.
+type SKSigner struct {
+	pub ssh.PublicKey
+	app string
+	ed  ed25519.PrivateKey
+	ec  *ecdsa.PrivateKey
+	mu  sync.Mutex
+	ctr uint32
+}
+
+func (s *SKSigner) PublicKey() ssh.PublicKey { return s.pub }
+
+func (s *SKSigner) Sign(_ io.Reader, data []byte) (*ssh.Signature, error) {
+	s.mu.Lock()
+	s.ctr++
+	ctr := s.ctr
+	s.mu.Unlock()
+	ad := sha256.Sum256([]byte(s.app))
+	dd := sha256.Sum256(data)
+	tail := []byte{1, byte(ctr >> 24), byte(ctr >> 16), byte(ctr >> 8), byte(ctr)}
+	msg := append(append(append([]byte{}, ad[:]...), tail...), dd[:]...)
+	if s.ed != nil {
+		return &ssh.Signature{Format: s.pub.Type(), Blob: ed25519.Sign(s.ed, msg), Rest: tail}, nil
+	}
+	h := sha256.Sum256(msg)
+	r, sv, err := ecdsa.Sign(rand.Reader, s.ec, h[:])
+	if err != nil {
+		return nil, err
+	}
+	return &ssh.Signature{Format: s.pub.Type(), Blob: ssh.Marshal(struct{ R, S *big.Int }{r, sv}), Rest: tail}, nil
 }
 
 // CertEnt is a certificate issued by the harness CA over a pool key.
@@ -100,6 +138,40 @@ func NewPool() (*Pool, error) {
 		if err := add(n, ed); err != nil {
 			return nil, err
 		}
+	}
+	// two security-key pairs (their certificates use the sk-*-cert-v01 wire formats)
+	addSK := func(name string, wire []byte, s *SKSigner) error {
+		pk, err := ssh.ParsePublicKey(wire)
+		if err != nil {
+			return err
+		}
+		s.pub, s.app = pk, "ssh:"
+		k := &KeyEnt{ID: uint64(len(p.Keys) + 1), Name: name, Priv: s, Signer: s, Pub: pk, Blob: pk.Marshal(), SK: true}
+		p.Keys = append(p.Keys, k)
+		p.register(k.ID, k.Blob)
+		return nil
+	}
+	skPub, skPriv, err := ed25519.GenerateKey(rand.Reader)
+	if err != nil {
+		return nil, err
+	}
+	if err := addSK("sk-ed25519", ssh.Marshal(struct {
+		T   string
+		K   []byte
+		App string
+	}{"sk-ssh-ed25519@openssh.com", skPub, "ssh:"}), &SKSigner{ed: skPriv}); err != nil {
+		return nil, err
+	}
+	skEC, err := ecdsa.GenerateKey(elliptic.P256(), rand.Reader)
+	if err != nil {
+		return nil, err
+	}
+	if err := addSK("sk-ecdsa", ssh.Marshal(struct {
+		T, C string
+		K    []byte
+		App  string
+	}{"sk-ecdsa-sha2-nistp256@openssh.com", "nistp256", elliptic.Marshal(elliptic.P256(), skEC.X, skEC.Y), "ssh:"}), &SKSigner{ec: skEC}); err != nil {
+		return nil, err
 	}
 	_, caKey, err := ed25519.GenerateKey(rand.Reader)
 	if err != nil {
